@@ -145,7 +145,10 @@ func (c *checker) onReturn(cl *call, e *sim.Ev) {
 	}
 	// C17: after Shutdown() returned, calls complete with ErrRaftShutdown
 	if cl.afterSD && cl.op != "getconfig" {
-		if cl.err != errShutdown {
+		if cl.err == "operation not supported with current protocol version" {
+			// an API this protocol version does not have is refused before the server's state is looked at
+			c.cov("after-shutdown-unsupported-api")
+		} else if cl.err != errShutdown {
 			c.violate("C17", "after-shutdown-wrong-result-"+cl.op, e.Seq, "%s on %s after Shutdown returned %q instead of ErrRaftShutdown", cl.op, cl.inst, cl.err)
 		}
 		c.cov("after-shutdown-call")
